@@ -164,7 +164,9 @@ Definition check_case (c : case) : bool :=
       let b := mk_bl m wild w in
       forallb (fun pr => Bool.eqb (bl_exists b (fst pr)) (snd pr)) probes
   | CaseServe m wild w nr nr6 qname qtype obs =>
-      outcome_eqb (serve (mk_bl m wild w) nr nr6 qname qtype) obs
+      outcome_eqb (serve (mk_bl m wild w) nr nr6 qname qtype) obs &&
+      (* qname is what dns.Unpack produced: Spec.present writes names the same way *)
+      str_eqb (present (raw_name_of qname)) qname
   | CaseHistory m0 wild0 w ops m1 wild1 file =>
       let '(ok, s) := run_ops ops (mk_sys (mk_bl m0 wild0 w) 0 0 None []) in
       ok && same_set (bm (s_mem s)) m1 && same_set (bwild (s_mem s)) wild1 &&
@@ -201,7 +203,8 @@ Definition check_case (c : case) : bool :=
        else
          opt_str_eqb local (Some old) &&
          match temps with [t] => temp_is_cut lines limit t | _ => false end) &&
-      let b := load_initial whitelist [] (match local with Some f => f :: temps | None => temps end) in
+      (* the restart deletes the leftovers and reads `local` only *)
+      let b := load_initial whitelist [] (disk_files (mk_disk local temps)) in
       same_set (bm b) re_m && same_set (bwild b) re_wild
   | CaseIoErr whitelist old o limit local temps re_m re_wild old_m old_wild new_m new_wild =>
       let b0 := load_initial whitelist [] [old] in
